@@ -10,8 +10,10 @@
 // governance.Manager whose per-token policy injects the row limit). The body is decoded by decoders that
 // share nothing with Arc (decode.go) and compared cell by cell - column names, row count, values, null
 // positions - with what DuckDB itself returns for the text Arc handed to it, read through database/sql on
-// a separate plain connection (compare.go). Files: main.go (driver, classification), grid.go, decode.go,
-// compare.go.
+// a separate plain connection (compare.go). A second, orthogonal dimension - the RESULT SHAPE: where the NULLs /
+// special values sit relative to the Arrow batch boundaries of results spanning 1, 2 and 3 batches, in results as
+// wide as the grid - is enumerated by shape.go. Files: main.go (driver, classification), grid.go, shape.go,
+// decode.go, compare.go.
 package main
 
 import (
@@ -25,6 +27,7 @@ import (
 	"net/http/httptest"
 	"os"
 	"runtime"
+	"runtime/pprof"
 	"sort"
 	"strconv"
 	"strings"
@@ -44,6 +47,8 @@ import (
 	_ "github.com/mattn/go-sqlite3"
 	"github.com/rs/zerolog"
 )
+
+var stopProfile = func() {}
 
 // scratch directory of this process; removed on every exit path (ev.Unbound exits without running defers)
 var scratchDir string
@@ -156,18 +161,28 @@ func (s *sut) postRetry(format, path, sqlText string, limit int) (int, []byte, e
 
 type oracle struct{ db *sql.DB }
 
+// One in-memory DuckDB instance (threads=1: every statement runs on its caller's thread), one connection per worker.
+var (
+	oracleOnce   sync.Once
+	sharedOracle *oracle
+	oracleConns  = 16
+)
+
 func newOracle() *oracle {
-	db, err := sql.Open("duckdb", "")
-	if err != nil {
-		unbound("oracle DuckDB: " + err.Error())
-	}
-	db.SetMaxOpenConns(1)
-	for _, s := range []string{"SET threads=1", "SET preserve_insertion_order=true"} {
-		if _, err := db.Exec(s); err != nil {
-			unbound("oracle setup: " + err.Error())
+	oracleOnce.Do(func() {
+		db, err := sql.Open("duckdb", "")
+		if err != nil {
+			unbound("oracle DuckDB: " + err.Error())
 		}
-	}
-	return &oracle{db}
+		db.SetMaxOpenConns(oracleConns)
+		for _, s := range []string{"SET threads=1", "SET preserve_insertion_order=true"} {
+			if _, err := db.Exec(s); err != nil {
+				unbound("oracle setup: " + err.Error())
+			}
+		}
+		sharedOracle = &oracle{db}
+	})
+	return sharedOracle
 }
 
 type expected struct {
@@ -236,7 +251,9 @@ func quoteIdent(s string) string { return `"` + strings.ReplaceAll(s, `"`, `""`)
 
 type failure struct {
 	Format, Type, Value string
-	Comp                string // cycle cases: the value class of the failing row ("" = whole response)
+	Comp                string     // cycle and shape cases: the value class of the failing row ("" = whole response)
+	Shape               string     // shape cases: the per-batch states (D/S/A); Type/Value are then the column's type and mark X
+	item                *shapeItem // shape cases: the statement
 	N, Limit            int
 	Kind, Detail, SQL   string
 }
@@ -269,6 +286,7 @@ type unit struct {
 
 type counters struct {
 	evaluations, cells, requests, oracleQueries, transformChanged int64
+	shapeEvaluations, shapeCells                                  int64
 }
 
 var cnt counters
@@ -307,6 +325,8 @@ var nontrivial sync.Map // "format|type|value" with >=1 cell compared
 var wireTypes sync.Map  // "type -> msgpack wire name / arrow type"
 var batchSizes sync.Map // n -> arrow batch sizes
 var samples = ev.NewSamples(6)
+var shapeSamples = ev.NewSamples(4)
+var shapeBatchSizes sync.Map // n -> arrow batch sizes of the shape statements
 
 func (u unit) sql() string {
 	return fmt.Sprintf("SELECT i AS i, %s AS c FROM range(%d) t(i)", u.t.expr(u.v), u.n)
@@ -511,6 +531,7 @@ type class struct {
 	minN, minLimit           int
 	count                    int
 	example                  failure
+	shape                    bool // a class of the result-shape dimension (own signature family)
 }
 
 func classify(fs []failure, g *grid) []*class {
@@ -699,12 +720,23 @@ func classify(fs []failure, g *grid) []*class {
 	return out
 }
 
-func (c *class) sig() string { return c.format + "|" + c.typ + "|" + c.value + "|" + c.kind }
+func (c *class) sig() string {
+	if c.shape {
+		return "shape|" + c.format + "|" + c.typ + "|" + c.value + "|" + c.kind
+	}
+	return c.format + "|" + c.typ + "|" + c.value + "|" + c.kind
+}
 
 // ---- main ----------------------------------------------------------------------------------------
 
 func main() {
 	os.Setenv("TZ", "UTC")
+	if p := os.Getenv("VERIF_C19_CPUPROFILE"); p != "" { // development aid only
+		if f, err := os.Create(p); err == nil {
+			pprof.StartCPUProfile(f)
+			stopProfile = pprof.StopCPUProfile
+		}
+	}
 	run := ev.Start("C19", "exploration")
 	dir := fmt.Sprintf("/dev/shm/verif.c19.%d", os.Getpid())
 	scratchDir = dir
@@ -717,65 +749,161 @@ func main() {
 	defer cleanup()
 
 	g := newGrid(run.Quick())
+	// Few workers on purpose: every request allocates and clears megabytes (Arc's 256 KiB stream buffers, response
+	// bodies, decoded cells) and runs DuckDB statements through cgo; measured on the 16-core box under load, 4 workers
+	// with GOMAXPROCS 6 finish the quick tier in about half the CPU time AND half the wall time of 14 workers.
 	workers := runtime.NumCPU() - 2
-	if workers > 14 {
-		workers = 14
+	if workers > 4 {
+		workers = 4
 	}
 	if workers < 2 {
 		workers = 2
 	}
-	s := newSUT(dir, workers+2, g.limits)
+	if w, _ := strconv.Atoi(os.Getenv("VERIF_C19_WORKERS")); w > 0 { // development aid
+		workers = w
+	}
+	if os.Getenv("GOMAXPROCS") == "" {
+		runtime.GOMAXPROCS(workers + 2)
+	}
+	oracleConns = workers + 2
+	limitSet := map[int]bool{}
+	var allLimits []int
+	for _, l := range append(append([]int{}, g.limits...), g.shapeLimits...) {
+		if !limitSet[l] {
+			limitSet[l] = true
+			allLimits = append(allLimits, l)
+		}
+	}
+	s := newSUT(dir, workers+2, allLimits)
 
 	// the grid's statements must be valid DuckDB: every (type, value) is evaluated once by the oracle first
 	o0 := newOracle()
 	for _, t := range g.types {
 		for _, v := range t.allVals() {
-			if _, err := o0.run(unit{t, v, 1}.sql(), t.kind); err != nil {
+			e, err := o0.run(unit{t, v, 1}.sql(), t.kind)
+			if err != nil {
 				unbound("DuckDB rejects a grid value (fix grid.go): " + t.name + "/" + v.class + ": " + err.Error())
+			}
+			refCells[t.name+"\x00"+v.class] = e.val[0]
+		}
+	}
+	// a mark must contrast with the typical value for DuckDB's GROUP BY (the compressed oracle reading groups by value)
+	noContrast := map[string]bool{}
+	for _, t := range g.types {
+		if len(t.vals) < 2 {
+			continue
+		}
+		for _, v := range t.vals[1:] {
+			if strings.Contains(v.sql, "i %") {
+				continue
+			}
+			var same bool
+			if err := o0.db.QueryRow("SELECT " + t.typed(t.vals[0]) + " IS NOT DISTINCT FROM " + t.typed(v)).Scan(&same); err != nil {
+				unbound("oracle contrast check: " + t.name + "/" + v.class + ": " + err.Error())
+			}
+			if same {
+				noContrast[t.name+"\x00"+v.class] = true
 			}
 		}
 	}
+	maxN := 1
+	for _, n := range g.shapeNs {
+		if n > maxN {
+			maxN = n
+		}
+	}
+	initIdxCells(maxN)
 
 	var units []unit
-	for _, n := range g.ns {
+	basePoints := 0
+	for k := len(g.ns) - 1; k >= 0; k-- { // the large results first, so that the workers finish together
 		for _, t := range g.types {
 			for _, v := range t.allVals() {
-				units = append(units, unit{t, v, n})
+				basePoints++
+				if g.inBase(t, v, g.ns[k]) {
+					units = append(units, unit{t, v, g.ns[k]})
+				}
 			}
 		}
 	}
 	if run.Seed != 0 { // VERIF_SEED only permutes the order
 		rand.New(rand.NewSource(int64(run.Seed))).Shuffle(len(units), func(i, j int) { units[i], units[j] = units[j], units[i] })
 	}
-	var next, done int64
+	devOnly := os.Getenv("VERIF_C19_ONLY") // development aid: "shape" skips the base grid; such a run is never exhaustive
 	exhaustive := int32(1)
-	var wg sync.WaitGroup
-	for w := 0; w < workers; w++ {
-		wg.Add(1)
-		go func() {
-			defer wg.Done()
-			o := newOracle()
-			defer o.db.Close()
-			for {
-				i := atomic.AddInt64(&next, 1) - 1
-				if int(i) >= len(units) {
-					return
-				}
-				if run.TimeUp() {
-					atomic.StoreInt32(&exhaustive, 0)
-					return
-				}
-				runUnit(s, o, units[i], g.limits)
-				atomic.AddInt64(&done, 1)
-			}
-		}()
+	if devOnly != "" {
+		exhaustive = 0
 	}
-	wg.Wait()
+	// parallel runs fn(i) for i in [0,n) on the worker pool; returns how many were done before the deadline
+	parallel := func(n int, fn func(o *oracle, i int)) int64 {
+		var next, done int64
+		var wg sync.WaitGroup
+		for w := 0; w < workers; w++ {
+			wg.Add(1)
+			go func() {
+				defer wg.Done()
+				o := newOracle()
+				for {
+					i := atomic.AddInt64(&next, 1) - 1
+					if int(i) >= n {
+						return
+					}
+					if run.TimeUp() {
+						atomic.StoreInt32(&exhaustive, 0)
+						return
+					}
+					fn(o, int(i))
+					atomic.AddInt64(&done, 1)
+				}
+			}()
+		}
+		wg.Wait()
+		return done
+	}
+	var done int64
+	if devOnly != "shape" {
+		done = parallel(len(units), func(o *oracle, i int) { runUnit(s, o, units[i], g.limits) })
+	}
+
+	// the result-shape dimension (shape.go); value classes that are not delivered on their own cannot be marks
+	failMu.Lock()
+	killers := killersOf(failures)
+	failMu.Unlock()
+	for k := range noContrast {
+		killers[k] = true
+	}
+	excludedMarks, excludedTypes := map[string]bool{}, map[string]bool{}
+	items := shapeItems(g, killers, excludedMarks, excludedTypes)
+	if run.Seed != 0 {
+		rand.New(rand.NewSource(int64(run.Seed))).Shuffle(len(items), func(i, j int) { items[i], items[j] = items[j], items[i] })
+	}
+	explored := map[[2]string]bool{}
+	shapeResponsesTotal := 0
+	for _, it := range items {
+		for _, c := range it.cols {
+			explored[[2]string{c.t.name, c.x.class}] = true
+		}
+		shapeResponsesTotal += 3 * len(it.limits)
+	}
+	if devOnly == "base" {
+		items = nil
+	}
+	shapeDone := parallel(len(items), func(o *oracle, i int) { runShapeItem(s, o, items[i]) })
 
 	// column names: a small product of its own (names are encoded by other code than cells)
 	nameCases := runNames(s, o0, g)
 
-	classes := classify(failures, g)
+	var baseFailures, shapeFailures []failure
+	for _, f := range failures {
+		if f.Shape != "" {
+			shapeFailures = append(shapeFailures, f)
+		} else {
+			baseFailures = append(baseFailures, f)
+		}
+	}
+	classes := classify(baseFailures, g)
+	shapeClasses, shapeExplained := classifyShapes(shapeFailures, baseFailures, g, explored)
+	classes = append(classes, shapeClasses...)
 	for _, c := range classes {
 		f := c.example
 		lim := "none"
@@ -783,8 +911,16 @@ func main() {
 			lim = strconv.Itoa(f.Limit)
 		}
 		desc := fmt.Sprintf("%s (minimal: type %s, value %s, n=%d, row limit %s; %d raw failures in this class)", f.Detail, f.Type, f.Value, f.N, lim, c.count)
-		run.Violate(c.sig(), desc, map[string]any{"endpoint": endpointOf(c.format), "sql": f.SQL, "n": f.N, "row_limit": lim,
-			"type": f.Type, "value_class": f.Value, "kind": c.kind, "detail": f.Detail, "raw_failures": c.count})
+		replay := map[string]any{"endpoint": endpointOf(c.format), "sql": f.SQL, "n": f.N, "row_limit": lim,
+			"type": f.Type, "value_class": f.Value, "kind": c.kind, "detail": f.Detail, "raw_failures": c.count}
+		if c.shape {
+			desc = fmt.Sprintf("%s (minimal placement: column type %s, typical value with mark %s, n=%d = %d Arrow batch(es) of %d rows, per-batch states %s, row limit %s; %d raw failures in this class)",
+				f.Detail, f.Type, f.Value, f.N, batchesOf(f.N), batchRows, stateWords(f.Shape), lim, c.count)
+			replay["mark"] = f.Value
+			replay["batch_states"] = stateWords(f.Shape)
+			replay["failing_row_value_class"] = f.Comp
+		}
+		run.Violate(c.sig(), desc, replay)
 	}
 
 	distinct := 0
@@ -800,10 +936,71 @@ func main() {
 		tnames = append(tnames, t.name)
 	}
 	run.Coverage["evaluations"] = cnt.evaluations + int64(nameCases)
+	shapeDistinct := len(shapeNontrivial)
+	run.Coverage["base_distinct_nontrivial"] = distinct
+	distinct += shapeDistinct
 	run.Coverage["distinct_nontrivial"] = distinct
-	run.Coverage["rule"] = "full product of (type, value class incl. NULL and a cycle column mixing all values of the type, n, row limit, wire format); " +
+	sbs := map[string]string{}
+	shapeBatchSizes.Range(func(k, v any) bool { sbs[strconv.Itoa(k.(int))] = v.(string); return true })
+	marks := map[string][]string{}
+	for x := range explored {
+		marks[x[0]] = append(marks[x[0]], x[1])
+	}
+	for _, l := range marks {
+		sort.Strings(l)
+	}
+	placements, markIdx := map[string]int{}, map[string]int{}
+	for _, n := range g.shapeNs {
+		placements[strconv.Itoa(n)] = len(placementsOf(n, g.shapeStates(n)))
+		markIdx[strconv.Itoa(n)] = markIndexes(g, n)
+	}
+	keys := func(m map[string]bool) []string {
+		out := []string{}
+		for k := range m {
+			out = append(out, k)
+		}
+		sort.Strings(out)
+		return out
+	}
+	run.Coverage["shape_rule"] = fmt.Sprintf("result-shape dimension, full product of: mark index (shape_mark_indexes_by_n; 0 = NULL, 1 = the special value class of each type, 2.. = its other value classes: shape_marks) "+
+		"x row count n (shape_row_counts; Arrow batches of %d rows) x every assignment of {D dense = no row marked, S sparse = first row, last row and every row p with p%%7==3 of the batch marked, A all = every row marked} "+
+		"to the batches of the result (results of at most %d batches; larger results: every assignment of {D, S}; coinciding placements of one- and two-row batches, where S == A, evaluated once: shape_placements_by_n) x {no row limit, every governance row limit L of shape_row_limits with L < n; "+
+		"with a limit the batches after the one it cuts are held dense} x 3 wire formats. One statement carries a column per type of the grid (every type except the untyped NULL column): marked rows carry the mark, the others the "+
+		"type's first value class. Oracle: DuckDB's own cells for the statement text Arc executes, read group-wise (values, text forms and result positions per distinct row, i == position asserted by DuckDB) and expanded to "+
+		"one expected cell per row and column, cross-checked against a row-by-row reading for one placement per mark index; compared positionally cell by cell. One evaluation = one response (all columns); "+
+		"a response that ignores the row limit altogether is reported as such and its cells are not compared again (they are those of the request without a limit). "+
+		"distinct = distinct (format, type, mark, n, placement) with at least one cell compared", batchRows, g.shapeFullStatesMaxBatches)
+	run.Coverage["shape_statements_done"] = shapeDone
+	run.Coverage["shape_statements_total"] = len(items)
+	run.Coverage["shape_responses_total"] = shapeResponsesTotal
+	run.Coverage["shape_responses_judged"] = cnt.shapeEvaluations
+	run.Coverage["shape_column_evaluations"] = shapeColumnEvaluations
+	run.Coverage["shape_cells_compared"] = cnt.shapeCells
+	run.Coverage["shape_distinct_nontrivial"] = shapeDistinct
+	run.Coverage["shape_row_counts"] = g.shapeNs
+	run.Coverage["shape_row_limits"] = g.shapeLimits
+	run.Coverage["shape_marks"] = marks
+	run.Coverage["shape_mark_indexes_by_n"] = markIdx
+	run.Coverage["shape_marks_excluded"] = keys(excludedMarks)
+	run.Coverage["shape_types_excluded"] = keys(excludedTypes)
+	run.Coverage["shape_placements_by_n"] = placements
+	run.Coverage["shape_arrow_ipc_batch_rows_by_n"] = sbs
+	run.Coverage["shape_oracle_crosschecked_against_row_by_row"] = shapeOracleCrosschecked
+	run.Coverage["shape_oracle_row_by_row_fallbacks"] = shapeOracleFallbacks
+	run.Coverage["shape_raw_failures"] = len(shapeFailures)
+	run.Coverage["shape_raw_failures_explained_by_base_grid_classes"] = shapeExplained
+	run.Coverage["shape_classes"] = len(shapeClasses)
+	run.Coverage["shape_samples"] = shapeSamples.List()
+	baseRule := "full product of (type, value class incl. NULL and a cycle column mixing all values of the type, n, row limit, wire format)"
+	if g.bigNOnlyVarying {
+		baseRule += " - in this tier restricted, at the multi-batch sizes n > 2048, to the value classes that differ from row to row (the cycle column, row-dependent expressions) and the untyped NULL column " +
+			"(base_points_in_tier of base_points_full_product; a column repeating one value over several batches is part (b), placements dense..dense and all..all)"
+	}
+	run.Coverage["base_points_full_product"] = basePoints
+	run.Coverage["base_points_in_tier"] = len(units)
+	run.Coverage["rule"] = "(a) " + baseRule + "; " +
 		"one evaluation = one HTTP response decoded and compared with DuckDB's own rows; a case is non-trivial when at least one cell of column c was compared (n >= 1), " +
-		"distinct = distinct (format, type, value class) among those"
+		"distinct = distinct (format, type, value class) among those; (b) plus the result-shape dimension, see shape_rule (its distinct cases are added)"
 	run.Coverage["exhaustive"] = exhaustive == 1
 	run.Coverage["units_done"] = done
 	run.Coverage["units_total"] = len(units)
@@ -817,7 +1014,7 @@ func main() {
 	run.Coverage["cells_compared"] = cnt.cells
 	run.Coverage["column_name_cases"] = nameCases
 	run.Coverage["outcomes"] = outcomes
-	run.Coverage["raw_failures"] = len(failures)
+	run.Coverage["raw_failures"] = len(baseFailures)
 	run.Coverage["statements_changed_by_arc_rewrites"] = cnt.transformChanged
 	run.Coverage["reference_validated"] = refValidated
 	run.Coverage["wire_types_seen"] = wt
@@ -831,9 +1028,15 @@ func main() {
 	run.Assume("accepted as faithful: the native encoding of the format; JSON null for NaN/Inf; DuckDB's CAST(v AS VARCHAR) for types the format cannot carry; RFC 3339 UTC strings for dates/timestamps in JSON; a binary float for a DECIMAL when rounding it to the column's scale returns the DuckDB value")
 	run.Assume("the governance row limit is injected through a real governance.Manager policy (max_rows_per_query) and an overlay-built licence; rate limits and quotas are C28's business")
 	run.Assume("out of scope: response compression, x-arc-arrow-dictionary / x-arc-arrow-compression, profile mode, the database/sql fallback JSON path (builds without duckdb_arrow), result sets read from Parquet")
-	fmt.Printf("C19: %d/%d units, %d responses judged, %d cells compared, %d raw failures -> %d classes, outcomes=%v\n",
-		done, len(units), cnt.evaluations, cnt.cells, len(failures), len(classes), sortedOutcomes())
+	fmt.Printf("C19: %d/%d units, %d/%d shape statements, %d responses judged (%d of shape statements), %d cells compared, %d raw failures (%d in shapes, %d of those explained by base classes) -> %d classes (%d shape classes), outcomes=%v\n",
+		done, len(units), shapeDone, len(items), cnt.evaluations, cnt.shapeEvaluations, cnt.cells, len(failures), len(shapeFailures), shapeExplained, len(classes), len(shapeClasses), sortedOutcomes())
+	if os.Getenv("VERIF_C19_SIGS") != "" { // development aid
+		for _, c := range classes {
+			fmt.Printf("  sig %s (%d)\n", c.sig(), c.count)
+		}
+	}
 	cleanup()
+	stopProfile()
 	run.Finish()
 }
 
